@@ -7,6 +7,8 @@ package main
 import (
 	"bytes"
 	"fmt"
+	"io"
+	"testing/iotest"
 	"strconv"
 	"strings"
 
@@ -56,9 +58,20 @@ func observe(o opts, in []byte) string {
 		na = pb.Assembler()
 	}
 	rd := bytes.NewReader(in)
+	var src io.Reader = rd
+	switch readerKind {
+	case 1:
+		src = struct{ io.Reader }{rd} // not an io.ByteReader / ByteScanner
+	case 2:
+		src = iotest.OneByteReader(rd)
+	case 3:
+		src = iotest.DataErrReader(struct{ io.Reader }{rd}) // last data arrives together with EOF
+	case 4:
+		src = io.MultiReader(bytes.NewReader(in[:len(in)/2]), struct{ io.Reader }{bytes.NewReader(in[len(in)/2:])})
+	}
 	err := lib.Safely(func() error {
 		return dagcbor.DecodeOptions{AllowLinks: o.links, RelaxedDecode: !o.strict, DontParseBeyondEnd: o.beyond,
-			AllocationBudget: o.budget, MaxDepth: o.depth}.Decode(na, rd)
+			AllocationBudget: o.budget, MaxDepth: o.depth}.Decode(na, src)
 	})
 	if err != nil {
 		return "err:" + lib.CborErrClass(err)
@@ -78,8 +91,16 @@ func observe(o opts, in []byte) string {
 	if perr != nil {
 		return "err:panic-on-read"
 	}
-	return fmt.Sprintf("ok:%s|rest:%d", dump, rd.Len())
+	rest := rd.Len()
+	if readerKind == 4 || (o.beyond && readerKind != 0) {
+		rest = -1 // not observable through these wrappers
+	}
+	return fmt.Sprintf("ok:%s|rest:%d", dump, rest)
 }
+
+// readerKind selects how the input reaches the decoder (0 = *bytes.Reader). Only used where the number
+// of bytes left is either 0 by contract (stop-at-end off) or not observed.
+var readerKind int
 
 var defaultOpts = opts{strict: true, links: true}
 
@@ -201,6 +222,14 @@ func main() {
 			po := o
 			po.perm = true
 			emit(base+".p", po, in)
+		}
+		if !o.beyond {
+			// the same input through other kinds of io.Reader: the verdict must not depend on the reader
+			readerKind = 1 + rng.Intn(3)
+			emit(fmt.Sprintf("%s.r%d", base, readerKind), o, in)
+			ext := append(append([]byte{}, in...), byte(rng.U64()))
+			emit(fmt.Sprintf("%s.rx%d", base, readerKind), o, ext)
+			readerKind = 0
 		}
 		// 2. byte-level mutations of it
 		for k := 0; k < 3; k++ {
